@@ -27,6 +27,8 @@ pub enum HOp {
     Advance(u64),
     ExternalReap,
     Drop,
+    /// the Popen is dropped by stack unwinding (its owner panicked)
+    DropUnwinding,
 }
 
 #[derive(Clone, Debug, Serialize, Deserialize)]
@@ -159,6 +161,19 @@ pub fn run_proc(case: &ProcCase) -> ProcOutcome {
                         OpResult::Skipped("drop would wait forever")
                     }
                 }
+                HOp::DropUnwinding => {
+                    if mortal || p.exit_status().is_some() || DETACHED.with(|d| d.get()) {
+                        let taken = popen.take();
+                        let _ = std::panic::catch_unwind(std::panic::AssertUnwindSafe(move || {
+                            let _owned = taken;
+                            panic!("verif: owner of the Popen panics");
+                        }));
+                        PANIC_MSG.with(|m| *m.borrow_mut() = None);
+                        OpResult::None
+                    } else {
+                        OpResult::Skipped("drop would wait forever")
+                    }
+                }
             };
             if matches!(op, HOp::Detach) {
                 DETACHED.with(|d| d.set(true));
@@ -284,8 +299,12 @@ pub fn judge(focus: Focus, case: &ProcCase, o: &ProcOutcome, rep: &mut CaseRepor
         match (&r.op, &r.res) {
             (HOp::Poll | HOp::Wait | HOp::WaitTimeout(_) | HOp::ExitStatus, OpResult::Status(st)) => {
                 let is_query_syscall = !matches!(r.op, HOp::ExitStatus);
+                // a blocking wait interrupted by a signal handler may surface the
+                // EINTR as an error; it must not turn it into a status
+                let interrupted = evs.iter().any(|e| matches!(e, Ev::Waitpid { ret: -1, err, .. } if *err == libc::EINTR));
                 let st = match st {
                     Ok(s) => *s,
+                    Err(_) if interrupted => None,
                     Err(e) => {
                         if focus == Focus::C09 || (focus == Focus::C11 && matches!(r.op, HOp::Poll | HOp::WaitTimeout(_))) {
                             return fail("query-error", format!("op #{}: {:?} returned Err({})", i, r.op, e));
@@ -311,7 +330,7 @@ pub fn judge(focus: Focus, case: &ProcCase, o: &ProcOutcome, rep: &mut CaseRepor
                             }
                         }
                         (None, None) => {
-                            if matches!(r.op, HOp::Wait) {
+                            if matches!(r.op, HOp::Wait) && !interrupted {
                                 return fail("wait-returned-nothing", format!("op #{}", i));
                             }
                         }
@@ -477,7 +496,7 @@ pub fn judge(focus: Focus, case: &ProcCase, o: &ProcOutcome, rep: &mut CaseRepor
                 }
             }
             (HOp::ExternalReap, OpResult::None) => ext_reap = true,
-            (HOp::Drop, _) => {
+            (HOp::Drop | HOp::DropUnwinding, _) => {
                 if focus == Focus::C10 && nkill > 0 {
                     return fail("drop-sends-signal", format!("op #{}: dropping the Popen sent a signal", i));
                 }
@@ -567,7 +586,7 @@ fn plan_strategy() -> impl Strategy<Value = ProcPlan> {
         1 => (0u64..4_000_000_000_000).prop_map(Some),
     ];
     let sig = prop_oneof![3 => Just(None), 2 => (1u8..65, any::<bool>()).prop_map(Some)];
-    (exit_after, any::<u8>(), sig, reaction_strategy(), reaction_strategy(), delay_strategy(), prop_oneof![Just(0u32), Just(1_000u32), Just(50_000u32)], prop_oneof![3 => Just(false), 1 => Just(true)]).prop_map(|(exit_after, exit_code, exit_signal, on_term, on_other, kill_delay, cost_ns, setpgid)| ProcPlan { exit_after, exit_code, exit_signal, on_term, on_other, kill_delay, cost_ns, setpgid })
+    (exit_after, any::<u8>(), sig, reaction_strategy(), reaction_strategy(), delay_strategy(), prop_oneof![Just(0u32), Just(1_000u32), Just(50_000u32)], prop_oneof![3 => Just(false), 1 => Just(true)], prop_oneof![6 => Just(0u8), 1 => Just(1u8), 1 => 1u8..4]).prop_map(|(exit_after, exit_code, exit_signal, on_term, on_other, kill_delay, cost_ns, setpgid, eintr_waits)| ProcPlan { exit_after, exit_code, exit_signal, on_term, on_other, kill_delay, cost_ns, setpgid, eintr_waits })
 }
 
 fn op_strategy(focus: Focus, thorough: bool) -> BoxedStrategy<HOp> {
@@ -590,9 +609,11 @@ fn op_strategy(focus: Focus, thorough: bool) -> BoxedStrategy<HOp> {
 }
 
 pub fn case_strategy(focus: Focus, thorough: bool) -> BoxedStrategy<ProcCase> {
-    let general = (plan_strategy(), prop::collection::vec(op_strategy(focus, thorough), 0..30), any::<bool>()).prop_map(|(plan, mut ops, drop_last)| {
-        if drop_last {
+    let general = (plan_strategy(), prop::collection::vec(op_strategy(focus, thorough), 0..30), 0u8..6).prop_map(|(plan, mut ops, drop_last)| {
+        if drop_last >= 4 {
             ops.push(HOp::Drop);
+        } else if drop_last == 3 {
+            ops.push(HOp::DropUnwinding);
         }
         ProcCase { plan, ops }
     });
